@@ -707,8 +707,10 @@ def e1_equality_coverage(prog):
                 continue
             if p.ret != pathsem.TRUE:
                 conds.append((p.ret, True))
-            good = [a_ for a_, v in conds if v is True and isinstance(a_, tuple) and (a_[0] == 'call' or (a_[0] == 'bin' and a_[1] == 'Eq'))] + \
-                   [a_ for a_, v in conds if v is False and isinstance(a_, tuple) and a_[0] == 'bin' and a_[1] == 'Ne']
+            def is_ne(a_):
+                return (a_[0] == 'bin' and a_[1] == 'Ne') or (a_[0] == 'call' and a_[1].rsplit('::', 1)[-1] == 'ne')
+            good = [a_ for a_, v in conds if v is True and isinstance(a_, tuple) and (a_[0] == 'call' or (a_[0] == 'bin' and a_[1] == 'Eq')) and not is_ne(a_)] + \
+                   [a_ for a_, v in conds if v is False and isinstance(a_, tuple) and is_ne(a_)]
             for fld in ('length', 'entity_identifiers', 'components'):
                 fi = anames.index(fld)
                 for side in (1, 2):
